@@ -13,7 +13,7 @@ class LimitedStringIO(StringIO):
         self,
         limit: int,
         initial_value: Optional[str] = None,
-        newline: Optional[str] = None,
+        newline: Optional[str] = "\n",
     ) -> None:
         super().__init__(initial_value, newline)
         self.limit = limit
@@ -21,7 +21,7 @@ class LimitedStringIO(StringIO):
 
     def write(self, __s: str) -> int:  # noqa: D102
         if __s:
-            self.size += len(__s.encode("utf-8"))
+            self.size += len(__s.encode("utf-8", errors="surrogatepass"))
             if self.size > self.limit:
                 raise OutputStreamLimitError("output stream limit reached", token=None)
         return super().write(__s)
